@@ -22,6 +22,11 @@ Theorem C08_no_panic : forall ctx sender p,
 Proof. exact no_panic. Qed.
 Print Assumptions C08_no_panic.
 
+(* the hypothesis is not redundant in the model *)
+Example C08_no_panic_needs_ctx_ok :
+  ctx_ok exCtxNarrow = false /\ handle_proposal exCtxNarrow wB exVirtGood = Panic.
+Proof. exact no_panic_needs_ctx_ok. Qed.
+
 (* the same for the proposal messages of the wire format *)
 Theorem C08_drop_bad_wire : forall ctx sender m p, proposal_of_msg m = Some p ->
   (handle_proposal ctx sender p = HandlerCalled -> GoodProposal ctx sender p)
